@@ -28,14 +28,17 @@ HARNESSES = {
     'f2|gp1': ('vga2', [['f2'], ['gp1']]),                # registered function resolves callee by name at call time
     'w:sw2|inv5': ('pga2+w', [['sw2'], ['inv5']]),
     'gp5|gp5': ('pga2', [['gp5'], ['gp5']]),              # both threads generate the same pattern
+    'w:gp5|gp5': ('pga2+w', [['gp5'], ['gp5']]),          # same pattern under a wrapper: lookup by name vs publication order
+    'w:f2|f2': ('vga2+w', [['f2'], ['f2']]),              # same registered function and pattern from two threads, wrapper
+    'w:inv5|inv5': ('vga2+w', [['inv5'], ['inv5']]),
     'w:f2,gp1|sq5': ('vga2+w', [['f2', 'gp1'], ['sq5']]),
     'gp1|gp2|f2': ('vga2+w', [['gp1'], ['gp2'], ['f2']]),
     'hs2|call2': ('vga2', [['hs2'], ['call2']]),
     'div0|gp2': ('pga2+w', [['div0'], ['gp2']]),          # one thread raises during generation
 }
 PLAN = {
-    'quick': [('w:gp1|gp2', 1, None), ('f2|gp1', 1, None), ('gp5|gp5', 1, None)],
-    'thorough': [('f2|gp1', 1, None), ('gp5|gp5', 1, None), ('w:sw2|inv5', 1, None), ('w:f2,gp1|sq5', 1, None), ('gp1|gp2|f2', 1, None),
+    'quick': [('w:gp1|gp2', 1, None), ('f2|gp1', 1, None), ('gp5|gp5', 1, None), ('w:gp5|gp5', 1, None)],
+    'thorough': [('w:gp5|gp5', 1, None), ('w:f2|f2', 1, None), ('w:inv5|inv5', 1, None), ('f2|gp1', 1, None), ('gp5|gp5', 1, None), ('w:sw2|inv5', 1, None), ('w:f2,gp1|sq5', 1, None), ('gp1|gp2|f2', 1, None),
                  ('hs2|call2', 1, None), ('div0|gp2', 1, None), ('f2|gp1', 2, 'cache'), ('gp5|gp5', 2, 'cache'), ('w:gp1|gp2', 2, None)],
 }
 _tier = ['quick']
